@@ -59,15 +59,15 @@ func (s Style) Modes() string {
 }
 
 type printer struct {
-	st        Style
-	rs        uint64
-	sb        strings.Builder
-	last      byte
-	nlOK      []bool
-	quoted    int // >0: inside a quoted template (no raw newlines at all)
-	tmpl      int // >0: inside any template
-	noNL      int // >0: inside a flush heredoc body
-	legacyEnd bool
+	st          Style
+	rs          uint64
+	sb          strings.Builder
+	last        byte
+	nlOK        []bool
+	quoted      int // >0: inside a quoted template (no raw newlines at all)
+	tmpl        int // >0: inside any template
+	noNL        int // >0: inside a flush heredoc body
+	legacyEnd   bool
 	usedHeredoc bool
 }
 
